@@ -27,6 +27,8 @@ import (
 	sdk "github.com/cosmos/cosmos-sdk/types"
 	"github.com/cosmos/cosmos-sdk/x/authz"
 	"github.com/cosmos/gogoproto/proto"
+	icatypes "github.com/cosmos/ibc-go/v8/modules/apps/27-interchain-accounts/types"
+	channeltypes "github.com/cosmos/ibc-go/v8/modules/core/04-channel/types"
 	consensustypes "github.com/palomachain/paloma/v2/x/consensus/types"
 	skywaytypes "github.com/palomachain/paloma/v2/x/skyway/types"
 	tftypes "github.com/palomachain/paloma/v2/x/tokenfactory/types"
@@ -175,6 +177,8 @@ type checker struct {
 	acceptedBy     map[string]float64
 	multiForgeable map[string]bool
 	authzForgeable map[string]bool
+	icaForgeable   map[string]bool
+	ownViaICA      map[string]string
 	messenger      wasmkeeper.Messenger
 	ownViaWasm     map[string]string // positive control: contract acting for itself
 }
@@ -185,16 +189,16 @@ func run(r *report.Run, replayFile string, dump bool) {
 	e.stores = e.storeKeys()
 	e.principals = []*principal{
 		mkPrincipal(e.B, []byte(sdk.ConsAddress(e.w.Vals[0].Cons.PubKey().Address()))),
-		mkPrincipal(e.U), mkPrincipal(e.G), mkPrincipal(e.L), mkPrincipal(e.M), mkPrincipal(e.A), mkPrincipal(e.C),
+		mkPrincipal(e.U), mkPrincipal(e.G), mkPrincipal(e.L), mkPrincipal(e.M), mkPrincipal(e.A), mkPrincipal(e.C), mkPrincipal(e.I),
 		mkPrincipal(e.V, []byte(sdk.ConsAddress(e.w.Vals[1].Cons.PubKey().Address()))),
 	}
 	c := &checker{e: e, r: r, tmpls: e.templates(), fields: map[string][]idField{}, before: map[string]projection{},
-		wasmForgeable: map[string]bool{}, acceptedBy: map[string]float64{}, multiForgeable: map[string]bool{}, authzForgeable: map[string]bool{}, ownViaWasm: map[string]string{}, stage: map[string]int{}, unattrib: map[string]int{}, exempted: map[string]int{}}
+		wasmForgeable: map[string]bool{}, acceptedBy: map[string]float64{}, multiForgeable: map[string]bool{}, authzForgeable: map[string]bool{}, icaForgeable: map[string]bool{}, ownViaICA: map[string]string{}, ownViaWasm: map[string]string{}, stage: map[string]int{}, unattrib: map[string]int{}, exempted: map[string]int{}}
 	if dump {
 		c.dump()
 		return
 	}
-	r.Rule = "for every palomachain.paloma.* sdk.Msg type in the interface registry: a template valid in the prepared world (3 validators, active chain, B's keep-alive / chain account / relayer fee / bridge vote / batch estimate+confirm / message signature+estimate+evidence+delivery report, U's pooled transfer / batches / job / denoms / user contract, M's pending licence, governance settings incl. a compass deployment in flight); every assignment of {A,B,U,G,L} to every identity-bearing leaf (string/bytes leaf equal to an acc-bech32 / valoper-bech32 / raw / eth encoding of an actor) and to metadata.creator, signers=[attacker], really signed by the attacker (A, a plain account) and delivered through ante + router; MsgConfirmBatch additionally with {B's valid signature, attacker-key signature, B's signature over another batch}; everything repeated with a fee grant B->A; the product again with the forged message as SECOND message of a tx whose first message is a harmless denom creation by the attacker (third position and forged-first control: one case per actor with all leaves set to it; full products in the thorough tier); the product again with a second attacker V that is itself a bonded validator with registered chain accounts (w.Vals[1]: signer, creator candidate, own external-chain key and valid signatures; signature-carrying messages MsgConfirmBatch / MsgAddMessagesSignatures with {B's, attacker's own} signature); second pass 'resource takeover': for every type the attacker's own valid message with each scalar leaf set to the victim's resource names and spelling variants; nested dispatch: the full product with the forged message inside authz.MsgExec{grantee: A} (no grant exists; one extra case per type with two envelopes), and the product (one case per actor in quick, full in thorough) dispatched as CosmosMsg::Any by a contract C through the application's own x/wasm messenger, also wrapped in authz.MsgExec{grantee: C}; positive control: C acting for itself must be accepted. Oracle: projection of all records attributed to B,U,G,L,M before/after"
+	r.Rule = "for every palomachain.paloma.* sdk.Msg type in the interface registry: a template valid in the prepared world (3 validators, active chain, B's keep-alive / chain account / relayer fee / bridge vote / batch estimate+confirm / message signature+estimate+evidence+delivery report, U's pooled transfer / batches / job / denoms / user contract, M's pending licence, governance settings incl. a compass deployment in flight); every assignment of {A,B,U,G,L} to every identity-bearing leaf (string/bytes leaf equal to an acc-bech32 / valoper-bech32 / raw / eth encoding of an actor) and to metadata.creator, signers=[attacker], really signed by the attacker (A, a plain account) and delivered through ante + router; MsgConfirmBatch additionally with {B's valid signature, attacker-key signature, B's signature over another batch}; everything repeated with a fee grant B->A; the product again with the forged message as SECOND message of a tx whose first message is a harmless denom creation by the attacker (third position and forged-first control: one case per actor with all leaves set to it; full products in the thorough tier); the product again with a second attacker V that is itself a bonded validator with registered chain accounts (w.Vals[1]: signer, creator candidate, own external-chain key and valid signatures; signature-carrying messages MsgConfirmBatch / MsgAddMessagesSignatures with {B's, attacker's own} signature); second pass 'resource takeover': for every type the attacker's own valid message with each scalar leaf set to the victim's resource names and spelling variants; nested dispatch: the full product with the forged message inside authz.MsgExec{grantee: A} (no grant exists; one extra case per type with two envelopes), and the product (one case per actor in quick, full in thorough) dispatched as CosmosMsg::Any by a contract C through the application's own x/wasm messenger, also wrapped in authz.MsgExec{grantee: C}; positive control: C acting for itself must be accepted; the same product sent as an interchain-accounts EXECUTE_TX packet for an interchain account I through ICAHostKeeper.OnRecvPacket (positive control: I acting for itself). Oracle: projection of all records attributed to B,U,G,L,M before/after"
 	r.Assumptions = []string{
 		"attribution: a record belongs to a principal when its key or value contains the principal's account bytes, account bech32, operator bech32 or consensus address (B); an external-chain address inside a record is content (destination, token contract, registered account) and does not attribute it; governance owns the params stores and an explicit list of setting families (chain infos, compass contracts and deployments, bridge tax / limits, sale contracts, observed-nonce cursor, pigeon requirements, light-node feegranter/funders)",
 		"a denom string factory/<address>/<sub> mentions its creator; outside the denom-owned families (tokenfactory records, bank denom metadata and supply, skyway denom<->erc20 mappings) such a mention does not attribute a record (e.g. A's own pooled transfer of U's token)",
@@ -211,12 +215,13 @@ func run(r *report.Run, replayFile string, dump bool) {
 		"takeover pass: the attacker's own message is derived from the template (identity leaves = attacker, the victim's denoms / token contracts / job ids / transfer and contract ids replaced by the attacker's own siblings; validator-scoped messages are sent by the validator attacker V with its own signatures); every string leaf and numeric id is then set to the victim's value and its spellings (upper / lower / first letter flipped / leading / trailing blank; for addresses also 0x-less, lower, checksummed, upper, 0X); the same ownership projection decides. Operations the code leaves public are not violations by construction of the oracle: executing somebody's job enqueues a message attributed to the caller and leaves the job record unchanged; sending a victim-created token the attacker holds moves the attacker's coins only",
 		"Any-typed sub-messages (evidence proofs, bad-signature subjects) are not searched for identities",
 		"contract path: messages are dispatched through the application's own messenger (app.wasmKeeper.messenger, read with reflect/unsafe) inside a cache context as wasmd's dispatcher does for a sub-message; no wasm byte code runs, the custom-binding messengers are not exercised; contract C is modelled as a funded account with a classic contract address",
+		"interchain-accounts host path: no IBC handshake is run; the state a completed handshake leaves on the host is written through exported setters (OPEN ORDERED channel icahost/channel-0 whose version metadata names account I with protobuf encoding, owner->account mapping, active channel); I is an existing funded account; the packet goes to ICAHostKeeper.OnRecvPacket on a cached context written only on success, after the host-enabled check the IBC module wrapper makes; host params are the ones the world's default genesis leaves (reported in evidence); relayer / light-client verification of the packet is out of scope (any controller chain can open such a channel permissionlessly)",
 		"authz path: a real signed tx carrying authz.MsgExec{grantee: attacker}; no authz grant and no fee grant exists in that variant",
 	}
 	for s, why := range excludedStores {
 		r.Assumptions = append(r.Assumptions, "store "+s+" not projected: "+why)
 	}
-	sort.Strings(r.Assumptions[16:])
+	sort.Strings(r.Assumptions[17:])
 
 	if replayFile != "" {
 		c.replay(replayFile)
@@ -256,6 +261,8 @@ func (c *checker) attacker(cs caseSpec) *actor {
 	switch {
 	case cs.Variant == "wasm":
 		return c.e.C
+	case cs.Variant == "ica":
+		return c.e.I
 	case cs.Attacker == "V":
 		return c.e.V
 	}
@@ -267,7 +274,7 @@ func (c *checker) actorsOf(cs caseSpec) []*actor {
 	return append([]*actor{c.attacker(cs)}, c.e.actors[1:]...)
 }
 
-func isAttacker(name string) bool { return name == "A" || name == "C" || name == "V" }
+func isAttacker(name string) bool { return name == "A" || name == "C" || name == "V" || name == "I" }
 
 func (c *checker) root(variant string) sdk.Context {
 	switch variant {
@@ -354,6 +361,8 @@ func (c *checker) deliver(cs caseSpec) outcome {
 	if cs.Variant == "wasm" {
 		// nested: the contract (the grantee and only signer) dispatches MsgExec envelopes
 		res = c.dispatchFromContract(ctx, c.wrapExec(msg, c.e.C, cs.Nest))
+	} else if cs.Variant == "ica" {
+		res = c.recvICAPacket(ctx, c.wrapExec(msg, c.e.I, cs.Nest))
 	} else if cs.Variant == "authz" {
 		// no grant of any kind exists: x/authz accepts an inner message implicitly
 		// when its only signer is the grantee
@@ -392,6 +401,36 @@ func (c *checker) deliver(cs caseSpec) outcome {
 	o := outcome{Res: res}
 	o.Viol, o.Changed, o.OwnA = c.judge(before, after, free, allow)
 	return o
+}
+
+// recvICAPacket delivers msg the way the interchain-accounts host delivers the
+// transaction of a controller chain: ICAHostKeeper.OnRecvPacket (EXECUTE_TX) on a
+// cached context written only on success, as the IBC module wrapper does after
+// checking that the host is enabled. The interchain account I is the only signer;
+// no ante handler runs.
+func (c *checker) recvICAPacket(ctx sdk.Context, msg sdk.Msg) (res world.TxResult) {
+	defer func() {
+		if r := recover(); r != nil {
+			res = world.TxResult{Err: fmt.Errorf("panic: %v", r), Stage: "panic"}
+		}
+	}()
+	app := c.e.w.App
+	if !app.ICAHostKeeper.GetParams(ctx).HostEnabled {
+		return world.TxResult{Err: fmt.Errorf("interchain accounts host disabled"), Stage: "ica"}
+	}
+	data, err := icatypes.SerializeCosmosTx(app.AppCodec(), []proto.Message{msg.(proto.Message)}, icatypes.EncodingProtobuf)
+	if err != nil {
+		return world.TxResult{Err: err, Stage: "build"}
+	}
+	packet := channeltypes.Packet{Sequence: 1, SourcePort: icaOwnerPort, SourceChannel: icaChannel, DestinationPort: icatypes.HostPortID, DestinationChannel: icaChannel,
+		Data: icatypes.InterchainAccountPacketData{Type: icatypes.EXECUTE_TX, Data: data}.GetBytes()}
+	cc, write := ctx.CacheContext()
+	cc = cc.WithEventManager(sdk.NewEventManager())
+	if _, err := app.ICAHostKeeper.OnRecvPacket(cc, packet); err != nil {
+		return world.TxResult{Err: err, Stage: "ica"}
+	}
+	write()
+	return world.TxResult{}
 }
 
 // wrapExec wraps msg in n authz.MsgExec envelopes with the given grantee.
@@ -568,7 +607,7 @@ func (c *checker) judge(before, after projection, free map[string]bool, allow fu
 			}
 			viol = append(viol, *ch)
 		}
-		if ob["A"] || oa["A"] || ob["C"] || oa["C"] || ob["V"] || oa["V"] {
+		if ob["A"] || oa["A"] || ob["C"] || oa["C"] || ob["V"] || oa["V"] || ob["I"] || oa["I"] {
 			ownA++
 			attributed = true
 		}
@@ -647,6 +686,12 @@ func (c *checker) describe(cs caseSpec, o outcome) string {
 			by += fmt.Sprintf("; wrapped in %d authz.MsgExec{grantee: C}", cs.Nest)
 		}
 	}
+	if cs.Variant == "ica" {
+		by = "sent as EXECUTE_TX packet by the controller of interchain account I through ICAHostKeeper.OnRecvPacket (signers=[I], no ante)"
+		if cs.Nest > 0 {
+			by += fmt.Sprintf("; wrapped in %d authz.MsgExec{grantee: I}", cs.Nest)
+		}
+	}
 	if cs.Variant == "authz" {
 		n := cs.Nest
 		if n < 1 {
@@ -721,6 +766,12 @@ func (c *checker) signature(cs caseSpec, o outcome) string {
 		// named principal is authenticated on that path
 		return "wasm:principal-unauthenticated"
 	}
+	if cs.Variant == "ica" {
+		// one defect class: the interchain-accounts host routes the messages of a
+		// controller chain's transaction to the handlers after checking only that the
+		// interchain account is their signer
+		return "ica:principal-unauthenticated"
+	}
 	if cs.Variant == "authz" {
 		// one defect class: x/authz executes the messages nested in a MsgExec whose
 		// grantee is their only signer without any grant, and the ante decorator only
@@ -792,6 +843,20 @@ func (c *checker) evalCase(cs caseSpec) {
 			}
 		}
 	}
+	if cs.Variant == "ica" && cs.Nest == 0 && wasmOwnControls[cs.Type] {
+		own := true
+		for _, a := range cs.Assign {
+			if a != "I" {
+				own = false
+			}
+		}
+		if own {
+			c.ownViaICA[shortType(cs.Type)] = errClass(o.Res)
+			if !o.Res.OK() {
+				c.r.Violate("ica:own-message-refused", "interchain account I sending its own message (creator = I, signers = [I]) is refused: "+o.Res.Err.Error()+"\n"+cs.String(), cs)
+			}
+		}
+	}
 	if len(o.Viol) > 0 {
 		min, mo := c.shrink(cs, o)
 		if min.Pos != "" {
@@ -812,6 +877,9 @@ func (c *checker) evalCase(cs caseSpec) {
 		}
 		if cs.Variant == "authz" {
 			c.authzForgeable[shortType(cs.Type)] = true
+		}
+		if cs.Variant == "ica" {
+			c.icaForgeable[shortType(cs.Type)] = true
 		}
 	}
 	// the fee grant must be honoured for the plain "act for B" case
@@ -882,6 +950,8 @@ func (c *checker) enumerate() {
 		{"", "authz", "", "orig", 2},
 		{"", "wasm", "", red, 0},
 		{"", "wasm", "", "diag", 1},
+		{"", "ica", "", red, 0},
+		{"", "ica", "", "diag", 1},
 	}
 	if th {
 		plans = append(plans,
@@ -985,6 +1055,16 @@ done:
 		r.Extra["authz_message_types_with_forgeable_principal"] = ts
 	}
 	r.Extra["wasm_contract_acting_for_itself"] = c.ownViaWasm
+	r.Extra["ica_account_acting_for_itself"] = c.ownViaICA
+	r.Extra["ica_host_params_from_genesis"] = c.e.icaParams
+	if len(c.icaForgeable) > 0 {
+		var ts []string
+		for t := range c.icaForgeable {
+			ts = append(ts, t)
+		}
+		sort.Strings(ts)
+		r.Extra["ica_message_types_with_forgeable_principal"] = ts
+	}
 	if len(c.wasmForgeable) > 0 {
 		var ts []string
 		for t := range c.wasmForgeable {
